@@ -34,7 +34,9 @@ theorem finish_status (fs : List Entry) (o : Opts) (n : Nat) (r : RunResult)
   all_goals (first | cases h | skip)
 
 /-- exit status: 0, 1 or 2; a non-zero status always comes with a diagnostic on stderr and no
-    output file; no diagnostic means status 0 -/
+    output file; no diagnostic means status 0 — whenever the model gives a result at all
+    (`.done`; it gives `.unmodelled` for the flags version, profile, dbg-ast, dbg-lex, for an "unmodelled" or an
+    out-of-fuel interpreter outcome, and no claim is made then) -/
 theorem exit_status (tbl : RuleTable) (argv : List Bytes) (stdin : Bytes) (fs : List Entry)
     (exit : Nat) (out : Bytes) (err : Bool) (w : Option (Bytes × Bytes))
     (h : run tbl argv stdin fs = .done exit out err w) :
@@ -52,8 +54,20 @@ theorem exit_status (tbl : RuleTable) (argv : List Bytes) (stdin : Bytes) (fs : 
       · simp only [Result.done.injEq] at h; obtain ⟨rfl, rfl, rfl, rfl⟩ := h; simp
       · rcases finish_status _ _ _ _ _ _ _ _ h with ⟨rfl, rfl⟩ | ⟨rfl, rfl, rfl⟩ <;> simp
 
-/-- `-o FILE` writes exactly the bytes that `-o -` prints after the program's own output, with
-    the same status (for a FILE that can be created) -/
+/-- non-vacuity of `exit_status` / `finish_status`: a successful run, a usage error (status 2)
+    and a missing input file (status 1) -/
+example : (match run expectedRuleTable [b!"BEGIN { print 1 }"] [] [] with
+      | .done e o er w => some (e, o, er, w.isSome) | _ => none) = some (0, b!"1\n", false, false) ∧
+    (match run expectedRuleTable [b!"-x"] [] [] with
+      | .done e o er w => some (e, o, er, w.isSome) | _ => none) = some (2, [], true, false) ∧
+    (match run expectedRuleTable [b!"{ print $ }", b!"nofile"] [] [] with
+      | .done e o er w => some (e, o, er, w.isSome) | _ => none) = some (1, [], true, false) := by
+  decide +kernel
+
+/-- in the SUCCESSFUL case (status 0, document written) `-o FILE` writes exactly the bytes that
+    `-o -` prints after the program's own output, and `-o -` succeeds too — stated for a FILE
+    that does not exist yet in an existing directory (`hcreate`; overwriting an existing file and
+    the failing cases are not covered by this statement) -/
 theorem o_file_equals_o_dash (fs : List Entry) (o : Opts) (n : Nat) (r : RunResult) (file : Bytes)
     (hf : file ≠ b!"-") (hne : file ≠ [])
     (hcreate : lookup fs file = none ∧ dirExists fs (dirPart file) = true)
@@ -70,6 +84,18 @@ theorem o_file_equals_o_dash (fs : List Entry) (o : Opts) (n : Nat) (r : RunResu
     | (split at h))
   all_goals (first | cases h | skip)
   all_goals simp_all
+
+/-- non-vacuity of `o_file_equals_o_dash`: `-o out.json '{ $.x = 1 }'` on `{"a":2}` in an empty
+    working directory -/
+example : (match finish [] { outfile := b!"out.json" } 1
+        (evalProgram expectedRuleTable b!"{ $.x = 1 }" [] [⟨b!"<stdin>", b!"{\"a\":2}", .eof⟩]) with
+      | .done e o er _ => some (e, o, er) | _ => none) = some (0, [], false) ∧
+    (match finish [] { outfile := b!"out.json" } 1
+        (evalProgram expectedRuleTable b!"{ $.x = 1 }" [] [⟨b!"<stdin>", b!"{\"a\":2}", .eof⟩]) with
+      | .done _ _ _ w => w | _ => none)
+      = some (b!"out.json", b!"{\n  \"a\": 2,\n  \"x\": 1\n}") ∧
+    (lookup [] b!"out.json").isNone = true ∧ dirExists [] (dirPart b!"out.json") = true := by
+  decide +kernel
 
 /-- the first non-flag argument ends flag parsing: everything after it is left alone -/
 theorem parseFlags_stops (fuel : Nat) (a : Bytes) (rest : List Bytes) (o : Opts)
@@ -95,7 +121,9 @@ theorem parseFlags_f (fuel : Nat) (pf : Bytes) (rest : List Bytes) (o : Opts) :
   simp [splitEq]
 
 /-- `-f FILE` takes the program from the file and ALL remaining arguments as input files;
-    the inline form takes the first argument as the program: same program, same files -/
+    the inline form takes the first argument as the program: same program, same files —
+    for a program text and a first file name that `flag.Parse` does not take for flags
+    (`hprog`, `hfiles`: not `-` followed by at least one more byte) -/
 theorem dash_f_equals_inline (tbl : RuleTable) (pf prog : Bytes) (files : List Bytes)
     (stdin : Bytes) (fs : List Entry)
     (hpf : pf ≠ []) (hfile : lookup fs pf = some { name := pf, data := prog })
@@ -117,6 +145,17 @@ theorem dash_f_equals_inline (tbl : RuleTable) (pf prog : Bytes) (files : List B
   have hfin : ∀ n r, finish fs { progFile := pf } n r = finish fs {} n r := by
     intro n r; simp [finish]
   simp [source, hpf', hfile, hfin]
+
+/-- non-vacuity of `dash_f_equals_inline` (and `named_file_run`): the program file and an input
+    file in the working directory; the command line with `-f` runs -/
+example : ((lookup [⟨b!"p.jq", b!"{ print $.a }", false⟩, ⟨b!"in.json", b!"{\"a\":2}", false⟩] b!"p.jq").map
+        fun e => (e.name, e.data, e.isDir)) = some (b!"p.jq", b!"{ print $.a }", false) ∧
+    flagLike b!"{ print $.a }" = false ∧ (∀ f ∈ [b!"in.json"].head?, flagLike f = false) ∧
+    (match run expectedRuleTable [b!"-f", b!"p.jq", b!"in.json"] []
+        [⟨b!"p.jq", b!"{ print $.a }", false⟩, ⟨b!"in.json", b!"{\"a\":2}", false⟩] with
+      | .done e o er w => some (e, o, er, w.isSome) | _ => none) = some (0, b!"2\n", false, false) := by
+  refine ⟨by decide, by decide, ?_, by decide +kernel⟩
+  intro f hf; simp at hf; subst hf; decide
 
 /-- stdin is treated exactly as a file named `<stdin>`: with no file argument the interpreter
     gets one input `<stdin>` with the bytes of standard input -/
@@ -166,12 +205,17 @@ theorem files_order (fs : List Entry) (paths : List Bytes) (inputs : List InputF
         simp only [List.map_cons, ih rest hrest]
         split <;> rfl
 
+/-- non-vacuity of `files_order`: two files opened in the order given -/
+example : ((openFiles [⟨b!"b", b!"2", false⟩, ⟨b!"a", b!"1", false⟩] [b!"a", b!"b"]).map
+    fun l => l.map (·.data)) = some [b!"1", b!"2"] := by decide
+
 theorem parseFlags_r (fuel : Nat) (v : Bytes) (rest : List Bytes) (o : Opts) :
     parseFlags (fuel + 1) (b!"-r" :: v :: rest) o = parseFlags fuel rest { o with sels := o.sels ++ [v] } := by
   conv => lhs; unfold parseFlags
   simp [splitEq]
 
-/-- -r selectors are collected in the order given -/
+/-- -r selectors are collected in the order given (stated for the command line
+    `-r a -r b prog` only; the general step is `parseFlags_r`) -/
 theorem selectors_order (a b : Bytes) (prog : Bytes) (hprog : flagLike prog = false) :
     parseFlags 6 [b!"-r", a, b!"-r", b, prog] {} = .ok ({ sels := [a, b] }, [prog]) := by
   rw [parseFlags_r, parseFlags_r]
@@ -209,8 +253,9 @@ open Sel in
 /-- **Expression level, observably**: in related states (e.g. the selector's nested evaluator
     and the main evaluator in a rule, both with `$` bound to a fresh conversion of the same
     value) an expression whose identifiers are allowed gives the same JSON rendering, the same
-    printed form, the same output and the same error.  `E` may call methods and builtins,
-    contain array / object literals, `match`, even assignments. -/
+    printed form, the same output and the same error — when BOTH evaluations end; if either is
+    out of fuel (at the given `nA`, `nB`) the statement claims nothing.  `E` may call methods and
+    builtins, contain array / object literals, `match`, even assignments. -/
 theorem selector_expression_same_value {X : XCtx} (g : GoodX X) (E : Expr)
     (hE : idsE X.allowD X.allow E = true) {sA sB : St} (hs : SR X sA sB) (nA nB : Nat) :
     match evalExpr X.progA nA E sA, evalExpr X.progB nB E sB with
@@ -276,7 +321,7 @@ theorem selector_step (prog : Program) (T : SelTok) (E : Expr) (hE : selX (fun _
     (fun h => by cases h)
 
 open Sel in
-/-- **Whole runs: `-r E` behaves as `BEGINFILE { $ = E }`.**  For every program `prog` whose
+/-- **Whole runs: (a single) `-r E` behaves as `BEGINFILE { $ = E }`.**  For every program `prog` whose
     ENDFILE rules (and, if it has any, the functions they might call) do not read `$`
     (`EndOK`; BEGINFILE rules and pattern rules are unrestricted — they see the selected value in
     both runs), every selector `E` of the class described at `selector_step` (container-creating
@@ -442,6 +487,9 @@ theorem r_behaves_as_beginfile_rule_builtins_cli (tbl : RuleTable) (htbl : TblOK
 /-! ### non-vacuity, and what delimits the claim (all checked on the model; the same command
 lines were run on the binary) -/
 
+/-- the hypothesis `TblOK tbl` of the theorems above holds for the rule table of the parser -/
+example : TblOK expectedRuleTable := expectedRuleTable_ok
+
 /-- decidable form of `Sel.EndOK` -/
 def endOKB (prog : Program) : Bool :=
   (rulesOf prog .endFile).all (fun r => Sel.idsS false (fun _ => true) r.body) &&
@@ -475,6 +523,12 @@ example : (match parseExpressionSrc expectedRuleTable b!"$.result" with
       | .ok e => Sel.selE e && Sel.selX (fun _ => false) e | _ => false) = true ∧
     (match parseProgramSrc expectedRuleTable b!"{ print $.name }" with
       | .ok p => endOKB p | _ => false) = true := by decide +kernel
+
+/-- the hypotheses `hA`, `hB` of `r_behaves_as_beginfile_rule_cli`: the README's run ends
+    normally (not out of fuel), with output -/
+example : (obs (evalProgram expectedRuleTable b!"{ print $.name }" [b!"$.result"] [doc1])).1 = (0, "") ∧
+    (obs (evalProgram expectedRuleTable b!"{ print $.name }" [b!"$.result"] [doc1])).2.1 = b!"a\nb\n" := by
+  decide +kernel
 
 /-- … also with operators, index steps, `match`, and an ENDFILE rule that does not read `$` -/
 example : (match parseExpressionSrc expectedRuleTable b!"match ($.n) { 3.7 => $.result[0].name + \"x\", y => $.a.k * 2 }" with
